@@ -731,11 +731,11 @@ def refused_call(pr, op):
 
 def refused_items(tier, start):
     """Histories with at least one refused request.  quick: every member alone, every (refused, refused) pair over the first
-    12 core members, every (core, valid event) pair.  thorough: pairs over all 15 core members, also (valid event, core),
+    9 core members, every (core, valid event) pair.  thorough: pairs over all 15 core members, also (valid event, core),
     (any other member, first six core) and (first six core, any other member), and every triple over the first six core
     members and the 8 valid events that contains a refused request."""
     r = lambda k: "refused:" + k  # noqa: E731
-    core = [r(k) for k in (REFUSED_CORE[:12] if tier == "quick" else REFUSED_CORE)]
+    core = [r(k) for k in (REFUSED_CORE[:9] if tier == "quick" else REFUSED_CORE)]
     valid = list(HISTORY_EVENTS)
     hs = [[r(k)] for k in REFUSED_OPS]
     hs += [[a, b] for a in core for b in core]
